@@ -378,3 +378,54 @@ def c11_r6(ctx):
     ctx.ob(sb, ok, "_skip_to_block tests the predicate before every _next_block()")
     if n < 2:
         raise AnalysisError("only %d _skip_to_block call sites" % n)
+
+
+@rule("C11", "R7", "K2", "MultiMatcher.skip_to re-tests the target after it moves on to the next segment's matcher",
+      min_instances=1, also=("C01", "C12", "C05"),
+      clause="In MultiMatcher.skip_to every normal exit follows either the current sub-matcher's own skip_to (whose "
+             "postcondition is id() >= target or exhausted), or a failed `id > self.id()` / `self.current < len(matchers)` "
+             "test -- never directly a switch to the next sub-matcher (_next_matcher()), which starts at that segment's "
+             "FIRST posting; max_quality() ranges over the current and all later sub-matchers.")
+def c11_r7(ctx):
+    prog = ctx.prog
+    cls = prog.cls("matching.wrappers.MultiMatcher")
+    f = cls.methods["skip_to"]
+    ctx.saw(f)
+    tgt = f.params[1]
+
+    def classify(func, call, res, concrete):
+        nm = norm.call_name(call)
+        if nm == "_next_matcher":
+            return "switch"
+        if nm == "skip_to" and call is not None and norm.receiver(call) is not None and norm.canon(norm.receiver(call)) != "self":
+            return "subskip"
+        return None
+
+    def edge_event(func, node, label):
+        if node.kind != "test":
+            return None
+        pol, e = guards.positive(label[0], node.ast)
+        t = norm.canon(e, norm.aliases(func.node))
+        if t == "(self.id() < %s)" % tgt and pol == "F":
+            return "reached"
+        if t in ("(self.current < len(self.matchers))",) and pol == "F":
+            return "reached"
+        return None
+
+    def delta(state, ev):
+        if ev == "switch":
+            return "D"
+        if ev in ("subskip", "reached"):
+            return "C"
+        return state
+    ts = TypeState(prog, calls_of(prog), delta, classify, edge_event=edge_event, max_depth=0)
+    ts.all_states = ("C", "D")
+    exits = ts.run(f, cls, "C")
+    bad = exits.get("D")
+    ctx.ob(f, "C" in exits and bad is None, "no exit directly after switching to the next sub-matcher",
+           detail="the matcher can rest on a posting of the next segment that lies before the target" if bad else "",
+           path=cfgmod.path_text(bad) if bad else None)
+    mq = cls.methods["max_quality"]
+    rets = [norm.canon(r.value) for r in ast.walk(mq.node) if isinstance(r, ast.Return) and r.value is not None]
+    ok = len(rets) == 1 and "self.matchers[self.current:]" in rets[0] and rets[0].startswith("max(") and "max_quality()" in rets[0]
+    ctx.ob(mq, ok, "max_quality() is the maximum over the current and ALL later sub-matchers", detail=str(rets))
